@@ -167,6 +167,7 @@ def install():
     _ecu_mod.threading = _fakethreading
     _m21.time = _faketime
     _m22.time = _faketime
+    _m22.print = lambda *a, **k: None      # the FD stack print()s on unsupported contained PGs
     _mq.queue = _appqueue
     _msrv.queue = _appqueue
 
